@@ -1,6 +1,7 @@
 //! C20 probe, run-time twin: every public constructor / accessor / predicate used in an
 //! ordinary function.  If this does not build the probe cannot observe anything (INCONCLUSIVE).
 #![allow(non_snake_case)]
+use c20_shared::BigLayout;
 use pc_keyboard::layouts::*;
 use pc_keyboard::*;
 
